@@ -196,7 +196,13 @@ def evaluate(case) -> Verdict:
     elif kind == "tmpl":
         src = gg.to_source(case["main"])
         psrc = {n: gg.to_source(a) for n, a in case["partials"].items()}
-        env = envs.make_env(case["cfg"], psrc)
+        cfg = dict(case["cfg"])
+        if cfg.get("mode", "strict") != "strict":
+            # generated partials may call themselves (also through a dynamic name); in lax and warn mode the depth
+            # error that stops that is suppressed per node, so recursion with fan-out would take 2^30 renders
+            # (known finding C09-lax-fanout-*): keep it shallow here
+            cfg["limits"] = dict(cfg.get("limits") or {}, context_depth_limit=6)
+        env = envs.make_env(cfg, psrc)
         res = _render_both(v, env, src, gd.decode(case["data"]), "both")
         v.nontrivial = res != "" and not res.startswith("parse")
         v.labels.append("template:" + res)
@@ -271,7 +277,9 @@ def templates(draw):
     main = gg.Gen(r, prof).template()
     pp = _tmpl_profile(cfg)
     pp.depth, pp.partials, pp.in_partial = 2, ["q"], "render"
-    parts = {"p": gg.Gen(r, pp).template(), "q": gg.Gen(r, pp).block(1)}
+    parts = {"p": gg.Gen(r, pp).template()}
+    pp.partials = []
+    parts["q"] = gg.Gen(r, pp).block(1)
     data = gd.DataGen(r, hostile=True).data()
     data["pname"] = r.choice(["p", "q", "missing", 1])
     return {"kind": "tmpl", "cfg": cfg, "main": main, "partials": parts, "data": data}
